@@ -6,6 +6,7 @@ package vrange
 
 import (
 	"cmp"
+	"fmt"
 	"sort"
 	"sync/atomic"
 )
@@ -49,4 +50,15 @@ func Keys[K cmp.Ordered, V any](m map[K]V) []K {
 		}
 	}
 	return out
+}
+
+// KeysStr returns the keys of m ordered by their printed form (for key types
+// that are not ordered, e.g. pointers to values with a String method).
+func KeysStr[K comparable, V any](m map[K]V) []K {
+	keys := make([]K, 0, len(m))
+	for k := range m {
+		keys = append(keys, k)
+	}
+	sort.SliceStable(keys, func(i, j int) bool { return fmt.Sprint(keys[i]) < fmt.Sprint(keys[j]) })
+	return keys
 }
